@@ -347,6 +347,46 @@ func TestVerifC06(t *testing.T) {
 		c.pf("END")
 	}
 
+	// (2b) the top of the index space: stores with 47, 48 and 49 active
+	// buckets (the 49th only exists after the LAST secret, internal index 0).
+	// Each store is reached by real AddNextEntry calls from the honest state
+	// just before, then Encode -> NewRevocationStoreFromBytes -> Encode and
+	// look-ups incl. v = 2^48-1 (index 0) on the decoded store.
+	for i, n0 := range []uint64{
+		1, 2, 3, // next index 1..3 -> after the adds: everything incl. index 0, lenBuckets 49
+		uint64(1)<<47 + 1, uint64(1) << 47, // lenBuckets 47 -> 48 when index 2^47 arrives
+		uint64(1)<<46 + 2, uint64(1)<<47 + uint64(1)<<46 + 1,
+		1 + uint64(c.rng.Intn(6)),
+	} {
+		root := c.randHash()
+		p := NewRevocationProducer(root)
+		k0 := start - n0
+		c.startCase("deep", &root, k0)
+		c.load(honestBytes(p, k0))
+		c.state()
+		k := k0
+		steps := int(n0) + 1
+		if steps > 4 {
+			steps = 2 + i%3
+		}
+		for j := 0; j < steps && k <= start; j++ {
+			h := c.prod(p, k)
+			c.add(h, int64(k))
+			k++
+			c.state()
+			b := c.enc()
+			c.load(b)
+			c.enc()
+			c.look(k - 1)
+			c.look(k)
+			c.look(0)
+			c.look(start)
+			c.look(k0 + uint64(c.rng.Int63n(int64(k-k0))))
+			c.look(uint64(c.rng.Int63n(int64(k0))))
+		}
+		c.pf("END")
+	}
+
 	// (3c) a FOREIGN but self-consistent subtree: the next index n has d low
 	// one-bits, i.e. n = I + 2^d - 1 with I having exactly d trailing zeros.
 	// AddNextEntry compares a new element only with the buckets below its
